@@ -73,7 +73,10 @@ def compute_map(units):
                     if n in mapping:
                         continue
                     sn = now[n]
-                    if sn["self"] != sm["self"] or sn["trait"] != sm["trait"] or sn["module"] != sm["module"]:
+                    if sn["self"] != sm["self"] or sn["trait"] != sm["trait"]:
+                        continue
+                    # same module (a rename) or same name in another module of the same crate (a free fn that was moved)
+                    if sn["module"] != sm["module"] and not (n.rsplit("::", 1)[-1] == m.rsplit("::", 1)[-1] and n.split("::", 1)[0] == m.split("::", 1)[0] and sm["self"] is None):
                         continue
                     if sn["params"] != sm["params"] or sn["ret"] != sm["ret"]:
                         continue
